@@ -370,6 +370,22 @@ def r5_r6_pools(repo):
         gs = [(src(t), p) for t, p in flat_guards(st, stop=lp)]
         s = src(v) if isinstance(v, ast.AST) else str(v)
         leaves = sources(st, v)
+        # a pure filter `[t for t in X if ...]` is as good as X for the question where the pool comes from
+        expanded = set()
+        for _round in range(4):
+            nxt, changed_ = [], False
+            for x in leaves:
+                if isinstance(x, ast.ListComp) and len(x.generators) == 1 and src(x.elt) == src(x.generators[0].target) \
+                        and src(x.generators[0].iter) != f.params[1]:
+                    if id(x) not in expanded:
+                        expanded.add(id(x))
+                        nxt += prov.sources(x.generators[0].iter, at=x)
+                    changed_ = True
+                else:
+                    nxt.append(x)
+            leaves = nxt
+            if not changed_:
+                break
         texts = [src(x) for x in leaves if isinstance(x, ast.AST)]
         fs = [x for x in leaves if isinstance(x, ast.Call) and call_name(x) == "find_subtypes"]
         if fs:
